@@ -5,8 +5,26 @@ import fol
 import streams
 from common import sub_seed
 
-THEOREMS = ["LNN.C15_get_after_add", "LNN.C15_add_other_untouched", "LNN.C15_add_overwrites", "LNN.C15_reset_returns_data",
-            "LNN.C15_accept_iff", "LNN.C15_reject", "LNN.C15_toBounds_ok_iff"]
+THEOREMS = ["LNN.C15_get_after_add",
+            "LNN.C15_add_other_untouched",
+            "LNN.C15_add_overwrites",
+            "LNN.C15_reset_returns_data",
+            "LNN.C15_accept_iff",
+            "LNN.C15_reject",
+            "LNN.C15_toBounds_ok_iff",
+            "LNN.C15_add_keys",
+            "LNN.C15_leaf_after_add",
+            "LNN.C15_inference_keeps_leaves",
+            "LNN.C15_reset_after_inference",
+            "LNN.C15_reset_returns_assertion",
+            "LNN.C15_enc_fact",
+            "LNN.C15_enc_bool",
+            "LNN.C15_enc_float",
+            "LNN.C15_enc_pair",
+            "LNN.C15_reject_kind",
+            "LNN.C15_reject_kind_entry",
+            "LNN.C15_checked_spec",
+            "LNN.C15_checked_spec_single"]
 MODULES = ["LnnVerif.Props.C15"]
 FACETS = {"tables", "errors", "bounds", "state", None}
 
